@@ -771,6 +771,51 @@ def r11_20(run, model):
     c20.cst_cast_agreement(run, model, "R11.20")
 
 
+def r11_25(run, model):
+    run.rule("R11.25", "trivia between two tokens is skipped by a loop, never by a single step: in the parser crate no `if` whose condition asks "
+                       "whether the token at an index is trivia (is_trivia(), or a same-file predicate that is such a test) advances that "
+                       "index in its then-branch - one blank and one comment are two trivia tokens, and a look-ahead that steps over one of "
+                       "them answers `Comment` for the token after; the `while`-form skips found are the positive control")
+    n_if, n_while = 0, 0
+    for rel in model.src_files():
+        if not rel.startswith("crates/parser/src/"):
+            continue
+        preds = {"is_trivia"}
+        for g in model.fns(rel):
+            if g.body is not None and len(g.body.get("stmts", [])) == 1 and any(c["k"] == "MethodCall" and c["method"] == "is_trivia" for c in S.walk(g.body)):
+                preds.add(g.name)
+        for f in model.fns(rel):
+            if f.body is None or f.test:
+                continue
+
+            def positive(cond):
+                # the predicate occurs outside a negation
+                par = S.Parents(cond)
+                for c in S.walk(cond):
+                    if c["k"] in ("MethodCall", "Call") and S.callee_name(c) in preds:
+                        neg = sum(1 for a in par.ancestors(c) if a["k"] == "Unary" and a.get("op") == "!")
+                        if neg % 2 == 0:
+                            return True
+                return False
+            for w in S.find(f.body, "While"):
+                if positive(w["cond"]):
+                    n_while += 1
+            for iff in S.find(f.body, "If"):
+                if not positive(iff["cond"]):
+                    continue
+                steps = [b for b in S.walk(iff["then"]) if b["k"] in ("Binary", "AssignOp") and str(b.get("op", "")).replace(" ", "") == "+="]
+                if not steps:
+                    continue
+                n_if += 1
+                run.ob("R11.25", f"{f.name}|trivia is skipped by a loop", False, site(rel, iff["sp"]),
+                       f"`if {S.norm_ws(run.facts.text(rel, iff['cond']['sp']))[:70]}` advances an index once: a second trivia token is taken for the next token",
+                       witness="let p = Point { // origin\n x: 0, y: 0 }: a line comment after `{` puts two trivia tokens (blank, comment) in the look-ahead "
+                               "window of looks_like_struct_literal; nth(1) answers Comment and a valid struct literal produces a cascade of parse errors")
+    if n_if == 0:
+        run.ob("R11.25", "parser|no single-step trivia skip", True, None, f"{n_while} loop-form trivia skips, no `if`-form step over trivia")
+    run.floor("loop-form trivia skips in the parser crate (positive control)", n_while, 1)
+
+
 def run(run, model):
     run.try_rule(r11_10, model)
     from rules import c10
@@ -782,6 +827,7 @@ def run(run, model):
     from rules import c05 as _c05
     run.try_rule(_c05.r05_15, model)
     run.try_rule(r11_9, model)
+    run.try_rule(r11_25, model)
     run.try_rule(r11_12, model)
     run.try_rule(r11_14, model)
     run.try_rule(r11_23, model)
